@@ -132,6 +132,8 @@ Definition case_mon (c : jv * result * (list bool * bool)) : bool :=
   let '(doc, obs, _) := c in C13_ok doc obs.
 Definition case_notk5 (c : jv * result * (list bool * bool)) : bool :=
   let '(doc, obs, _) := c in negb (sig_K5 doc obs).
+Definition case_model_rejects (c : jv * result * (list bool * bool)) : bool :=
+  let '(doc, _, _) := c in match verify_and_build doc with Accept _ => false | _ => true end.
 Definition case_detail (c : jv * result * (list bool * bool)) :=
   let '(doc, obs, (js, cmp)) := c in
   (verify_and_build doc, (C13_ok doc obs, sig_K5 doc obs), schema_bits doc).
@@ -1424,7 +1426,7 @@ def cli_bucket(detail):
     return (m.group(1), m.group(2), " ".join(words[:4]))
 
 
-def cli_stream(ck, impl, recs, bad, corpus):
+def cli_stream(ck, impl, recs, lits, bad, corpus):
     """run a sample through the real command line and compare classes"""
     quick = ck.tier != "thorough"
     rng = random.Random(ck.seed + 13)
@@ -1457,12 +1459,21 @@ def cli_stream(ck, impl, recs, bad, corpus):
     no_o = {t for t, d, j in corpus if d is not None and j.get("use_o") is False}
     work = [(recs[i]["tag"], to_yaml(recs[i]["doc"]), recs[i]["obs"][0], i, recs[i]["tag"] not in no_o) for i in jobs]
     # reserved / common names in every admissible place, with and without -o
+    # (expected class = the MODEL's, asked of Coq directly: these run even when the
+    # library already disagrees with the model, so that an accepted specification the
+    # implementation cannot build is reported with its concrete input)
     n_res = 0
-    for i in elig:
-        if recs[i]["tag"].startswith("reserved:") and i not in chosen:
+    res_idx = [i for i, r in enumerate(recs) if r["tag"].startswith("reserved:") and r["cmp"]]
+    if res_idx:
+        acc_m, e_m = common.coq_failing("c13_resmodel", HEADER, "jv * result * (list bool * bool)", "case_model_rejects",
+                                        [lits[i] for i in res_idx], shard=400, timeout=600)
+        for e in e_m:
+            ck.mismatch("coqc failed on the reserved-name cases", None, e[1])
+        acc_m = set(acc_m) if not e_m else None
+        for n, i in enumerate(res_idx):
+            want = recs[i]["obs"][0] if acc_m is None else ("A" if n in acc_m else "D")
             for use_o in (True, False):
-                work.append((recs[i]["tag"] + (":-o" if use_o else ":no-o"), to_yaml(recs[i]["doc"]),
-                             recs[i]["obs"][0], i, use_o))
+                work.append((recs[i]["tag"] + (":-o" if use_o else ":no-o"), to_yaml(recs[i]["doc"]), want, i, use_o))
                 n_res += 1
     # raw texts (documents outside the model's type): never an internal error
     for t, d, j in corpus:
@@ -1484,14 +1495,16 @@ def cli_stream(ck, impl, recs, bad, corpus):
             cj["doc"] = to_json(recs[i]["doc"])
         else:
             cj["yaml_text"] = text
-        if got == "I":
+        if got == "A?" and want == "A":
+            ck.mismatch("cli:%s: exit 0 but no study directory was staged (%s)" % (tag, detail), cj, detail)
+        elif got == "I":
             ck.violation("cli:%s: `maestro run` ended in an internal error (%s) on a document the model %s"
                          % (tag, detail, {"D": "rejects with a diagnostic", "A": "accepts"}.get(want, "never crashes on")),
                          cj)
         elif got == "T":
             ck.mismatch("cli:%s: `maestro run` timed out" % tag, cj, detail)
         elif want == "A" and got == "D":
-            ck.violation("cli:%s: the model and the library accept this specification but `maestro run%s` "
+            ck.violation("cli:%s: the model accepts this specification but `maestro run%s` "
                          "rejects it and stages nothing (%s)" % (tag, " -o OUT" if use_o else "", detail), cj)
         elif want is not None and got != want:
             ck.mismatch("cli:%s: command line %s (%s) but library and model %s" % (tag, got, detail, want), cj, detail)
@@ -1695,7 +1708,7 @@ def run(ck):
     judge(ck, recs, lits, bad, errs)
     tm["judge"] = round(time.time() - t1, 1)
     t1 = time.time()
-    cli_stream(ck, impl, recs, bad, corpus)
+    cli_stream(ck, impl, recs, lits, bad, corpus)
     tm["cli"] = round(time.time() - t1, 1)
     t1 = time.time()
     # the interpreter against jsonschema on random values
